@@ -52,7 +52,7 @@ impl SimBackend {
 fn op_name(e: &NativeEffect) -> &'static str {
     match e {
         NativeEffect::FileOpen { .. } => "open",
-        NativeEffect::FileRead { .. } => "read",
+        NativeEffect::FileRead { .. } => "use",
         NativeEffect::FileWrite { .. } => "write",
         NativeEffect::FileFlush { .. } => "flush",
         NativeEffect::FileClose { .. } => "close",
